@@ -24,7 +24,15 @@ def run_property(pid: str, tier: str, overlay: dict | None = None, root: str | N
     prog = load_program(root=root, overlay=overlay)
     ctx = Ctx(prog, pid, tier)
     mod.check(ctx)
-    ctx.check_floors()
+    ctx.floor_error = None
+    try:
+        ctx.check_floors()
+    except AnalysisError as e:
+        # a rule that reports a violation may stop early and leave a floor unmet: the violation is the verdict.  With no
+        # failing obligation at all the unmet floor means the rule no longer recognises the code.
+        if all(o.ok for o in ctx.obs):
+            raise
+        ctx.floor_error = str(e)
     return ctx, mod.META
 
 
@@ -47,7 +55,6 @@ def main(argv=None) -> int:
         if args.tier == "thorough":
             from . import thorough
             extra_lines = thorough.run(pid, ctx, meta)
-            ctx.check_floors()
     except AnalysisError as e:
         print(f"ANALYSIS-ERROR property={pid} {e}")
         _error_evidence(pid, args.tier, time.time() - t0, str(e), args.no_evidence)
@@ -63,6 +70,11 @@ def main(argv=None) -> int:
     known_keys = {k.key: k for k in known if k.prop == pid}
     violations = [o for o in ctx.obs if not o.ok and o.key not in known_keys]
     known_hits = [o for o in ctx.obs if not o.ok and o.key in known_keys]
+    if getattr(ctx, "floor_error", None) and not violations:
+        # only known findings fail and a floor is unmet: the rule set no longer covers what was confirmed by hand
+        print(f"ANALYSIS-ERROR property={pid} {ctx.floor_error}")
+        _error_evidence(pid, args.tier, time.time() - t0, ctx.floor_error, args.no_evidence)
+        return 2
 
     if args.replay:
         with open(args.replay, encoding="utf-8") as f:
